@@ -714,7 +714,7 @@ func (s *registrySnap) compare() string {
 			return "Algorithm.String changed"
 		}
 	}
-	if otp.IsKnownSuite("OCRA-1:HOTP-SHA1-6:QN08-T1M-not-registered") {
+	if len(l) == len(baseRegistry.names) && otp.IsKnownSuite("OCRA-1:HOTP-SHA1-6:QN08-T1M-not-registered") {
 		return "IsKnownSuite true for an unregistered name"
 	}
 	return ""
@@ -745,6 +745,9 @@ func Run(pl *Plan, logOn bool) (*verifh.Violation, *runInfo) {
 		return &verifh.Violation{Property: prop, Clause: clause, Op: op, Witness: witness, Detail: detail}, info
 	}
 	e := &env{plan: pl, defH: baseDefH, defT: baseDefT, defHv: baseDefHv, defTv: baseDefTv}
+	// registry as this run found it: only what this run's own calls change is
+	// attributed to it (and therefore replays from its plan alone)
+	startReg := takeRegistry()
 	for _, sp := range pl.SharedParams {
 		p := otp.Param{Digits: otp.Digits(sp.Digits), Algorithm: otp.Algorithm(sp.Algo), Period: uint(sp.Period), Skew: uint(sp.Skew)}
 		cp := p
@@ -781,16 +784,20 @@ func Run(pl *Plan, logOn bool) (*verifh.Violation, *runInfo) {
 		t.res = make([]result, len(t.calls))
 		tasks = append(tasks, t)
 	}
-	refReaderPos := rd.Pos
-	for ti, t := range tasks {
-		for _, p := range t.calls {
-			verifrt.ResetMeter(workCap)
-			r := p.exec()
-			ref[ti] = append(ref[ti], canon(p.c.Op, &r))
+	runRef := func() {
+		for ti, t := range tasks {
+			ref[ti] = ref[ti][:0]
+			for _, p := range t.calls {
+				verifrt.ResetMeter(workCap)
+				r := p.exec()
+				ref[ti] = append(ref[ti], canon(p.c.Op, &r))
+			}
 		}
+		verifrt.ResetMeter(0)
 	}
-	verifrt.ResetMeter(0)
-	_ = refReaderPos
+	if !pl.RefAfter {
+		runRef()
+	}
 	rd.Log = rd.Log[:0]
 
 	// the reference run itself must not have touched caller data (sequential C12)
@@ -823,7 +830,7 @@ func Run(pl *Plan, logOn bool) (*verifh.Violation, *runInfo) {
 		go e.taskBody(t)
 	}
 	if adv != nil {
-		go e.advBody(adv, pl.Adv, baseRegistry.compare, &auditBad)
+		go e.advBody(adv, pl.Adv, startReg.compare, &auditBad)
 	}
 	verifrt.SchedRun(pl.Sched.First % total)
 	verifrt.SchedStop()
@@ -861,6 +868,15 @@ func Run(pl *Plan, logOn bool) (*verifh.Violation, *runInfo) {
 				info.log = append(info.log, fmt.Sprintf("task %d call %d %s -> %s", ti, ci, t.calls[ci].c.Op, canon(t.calls[ci].c.Op, &t.res[ci])))
 			}
 		}
+	}
+
+	if pl.RefAfter {
+		// "what it returns when called alone", established after the concurrent
+		// phase so that the tasks met every lazily initialised cache cold
+		logLen := len(rd.Log)
+		runRef()
+		rd.Log = rd.Log[:logLen]
+		verifh.Count("probe.reference-after-concurrent-phase", 1)
 	}
 
 	// ---------------- oracles ----------------
@@ -922,7 +938,7 @@ func Run(pl *Plan, logOn bool) (*verifh.Violation, *runInfo) {
 		if auditBad != "" {
 			return fail("registry-unmodified", "registry", "registry-changed-during-run", auditBad)
 		}
-		if s := baseRegistry.compare(); s != "" {
+		if s := startReg.compare(); s != "" {
 			return fail("registry-unmodified", "registry", "registry-changed", s)
 		}
 		if otp.DefaultHOTPParam != baseDefH || otp.DefaultTOTPParam != baseDefT || *otp.DefaultHOTPParam != baseDefHv || *otp.DefaultTOTPParam != baseDefTv {
@@ -931,6 +947,9 @@ func Run(pl *Plan, logOn bool) (*verifh.Violation, *runInfo) {
 		// history independence: after scribbling over everything that was
 		// returned, the same calls executed alone still give the reference
 		for ti, t := range tasks {
+			if pl.RefAfter {
+				break
+			}
 			for ci, p := range t.calls {
 				if p.c.Op == "RandomSecret" {
 					continue
